@@ -190,6 +190,14 @@ theorem render_parse_bom (env : Env) (f : File) :
     parsePTN env (0xEF :: 0xBB :: 0xBF :: render env f) = parsePTN env (render env f) :=
   parse_bom_render_eq env f
 
+/-- the same equivalence for the text with a byte-order mark in front -/
+theorem render_parse_bytes_bom (env : Env) (f : File) (hm : movesSafe env f = true) :
+    dataSafe env f = true ↔
+      ∃ g, parsePTN env (0xEF :: 0xBB :: 0xBF :: render env f) = .ok g ∧ g.tags = f.tags ∧
+        g.ops.map Op.clearSrc = f.ops.map Op.clearSrc := by
+  rw [render_parse_bom]
+  exact render_parse_bytes env f hm
+
 /-- **What comes back, in full** (safe side): the same tags, and each op with its rendered token as `src`;
 identically with a byte-order mark in front. -/
 theorem render_parse_tokens (env : Env) (f : File) (hs : renderSafe env f = true) :
@@ -205,7 +213,7 @@ theorem render_parse_tokens (env : Env) (f : File) (hs : renderSafe env f = true
 /-- **The scanner's token limit, exactly.**  For a value whose characters are all representable (tags
 `tagSafe`, every op `opShape` and `moveSafe`): `ParsePTN (Render p)` returns the value if every token fits the
 64 KiB window (`opFits`: `FormatMove` output + modifiers ≤ 65535 bytes, comment text ≤ 65534 bytes) and
-`bufio.ErrTooLong` — an error, no partial result — as soon as one does not. -/
+`bufio.ErrTooLong` — an error, nothing is returned — as soon as one does not. -/
 theorem render_parse_window (env : Env) (f : File) (htags : f.tags.all tagSafe = true)
     (hshape : f.ops.all opShape = true) (hm : movesSafe env f = true) :
     parsePTN env (render env f) =
@@ -365,6 +373,56 @@ example : dataSafe exEnv (oneTag "A B" "v") = false ∧ dataSafe exEnv (oneTag "
     dataSafe exEnv (oneOp (.move [] ⟨2, 2, Facts.mtPlaceFlat, 0#32⟩ (str "*"))) = false ∧
     dataSafe exEnv (oneOp (.result [] (str "c3"))) = false ∧ dataSafe exEnv (oneOp (.moveNumber [] (2 ^ 63))) = false ∧
     movesSafe exEnv (oneOp (.result [] (str "c3"))) = true := by decide
+
+/-- the window clause at its boundary: a comment of 65534 bytes comes back, one of 65535 bytes is `ErrTooLong`;
+a move with 65533 modifiers (token of 65535 bytes) comes back, with 65534 it is `ErrTooLong` -/
+example :
+    parsePTN exEnv (render exEnv (oneOp (.comment [] (List.replicate 65534 120)))) =
+      .ok ⟨(oneOp (.comment [] (List.replicate 65534 120))).tags,
+           (oneOp (.comment [] (List.replicate 65534 120))).ops.map (withSrc exEnv)⟩ ∧
+    parsePTN exEnv (render exEnv (oneOp (.comment [] (List.replicate 65535 120)))) =
+      .error (.illegal "bufio.Scanner: token too long") ∧
+    parsePTN exEnv (render exEnv (oneOp (.move [] ⟨2, 2, Facts.mtPlaceFlat, 0#32⟩ (List.replicate 65533 33)))) =
+      .ok ⟨(oneOp (.move [] ⟨2, 2, Facts.mtPlaceFlat, 0#32⟩ (List.replicate 65533 33))).tags,
+           (oneOp (.move [] ⟨2, 2, Facts.mtPlaceFlat, 0#32⟩ (List.replicate 65533 33))).ops.map (withSrc exEnv)⟩ ∧
+    parsePTN exEnv (render exEnv (oneOp (.move [] ⟨2, 2, Facts.mtPlaceFlat, 0#32⟩ (List.replicate 65534 33)))) =
+      .error (.illegal "bufio.Scanner: token too long") := by
+  have hm : ∀ op, opMove exEnv op = true → movesSafe exEnv (oneOp op) = true := by
+    intro op h
+    simp only [movesSafe, oneOp, List.all_cons, List.all_nil, Bool.and_true, h, Bool.and_eq_true]
+    decide
+  have hsh : ∀ op, opShape op = true → (oneOp op).ops.all opShape = true := by
+    intro op h
+    simp only [oneOp, List.all_cons, List.all_nil, Bool.and_true, h, Bool.and_eq_true]
+    decide
+  have hc : ∀ n, opShape (.comment [] (List.replicate n 120)) = true := by
+    intro n
+    simp only [opShape, List.all_eq_true, List.mem_replicate]
+    rintro b ⟨_, rfl⟩; decide
+  have hmv : ∀ n, opShape (.move [] ⟨2, 2, Facts.mtPlaceFlat, 0#32⟩ (List.replicate n 33)) = true := by
+    intro n
+    simp only [opShape, List.all_eq_true, List.mem_replicate]
+    rintro b ⟨_, rfl⟩; decide
+  have hfm : (exEnv.formatMove ⟨2, 2, Facts.mtPlaceFlat, 0#32⟩).length = 2 := by decide
+  refine ⟨?_, ?_, ?_, ?_⟩
+  · rw [render_parse_window exEnv _ (by decide) (hsh _ (hc _)) (hm _ rfl), if_pos]
+    simp only [oneOp, List.all_cons, List.all_nil, opFits, List.length_replicate, maxScanTokenSize]
+    decide
+  · rw [render_parse_window exEnv _ (by decide) (hsh _ (hc _)) (hm _ rfl), if_neg]
+    simp only [oneOp, List.all_cons, List.all_nil, opFits, List.length_replicate, maxScanTokenSize]
+    decide
+  · rw [render_parse_window exEnv _ (by decide) (hsh _ (hmv _)) (hm _ (by decide)), if_pos]
+    simp only [oneOp, List.all_cons, List.all_nil, opFits, List.length_replicate, maxScanTokenSize, hfm]
+    decide
+  · rw [render_parse_window exEnv _ (by decide) (hsh _ (hmv _)) (hm _ (by decide)), if_neg]
+    simp only [oneOp, List.all_cons, List.all_nil, opFits, List.length_replicate, maxScanTokenSize, hfm]
+    decide
+
+/-- moves the real `FormatMove` cannot carry are outside `moveSafe` (`i1`: off the board; move type 0: printed as
+a flat placement; a slide without drops: read back with one drop), a slide of legal shape is inside -/
+example : moveSafe (realEnv #[]) ⟨8, 0, Facts.mtPlaceFlat, 0#32⟩ = false ∧ moveSafe (realEnv #[]) ⟨0, 0, 0, 0#32⟩ = false ∧
+    moveSafe (realEnv #[]) ⟨1, 1, Facts.mtSlideLeft, 0#32⟩ = false ∧
+    moveSafe (realEnv #[]) ⟨1, 1, Facts.mtSlideLeft, 0x1#32⟩ = true := by decide
 
 /-- `[N "x"y"]`: the value `x"y` is what `ParsePTN` returns, and `Render` writes it as `"xy"` -/
 theorem render_parse_bytes_statement_false : ¬ render_parse_bytes_statement exEnv := by
